@@ -14,6 +14,7 @@ import (
 	"flag"
 	"fmt"
 	"strings"
+	"time"
 
 	"github.com/arloliu/go-secs/v2/hsms"
 	"github.com/arloliu/go-secs/v2/secs2"
@@ -33,6 +34,13 @@ func main() {
 		readerPass(c)
 	case "e2e":
 		e2ePass(c)
+	case "stall": // development aid: loop the e2eStall scenario (local writes on every other link)
+		for li := 0; li < c.N; li++ {
+			li := li
+			confirmed(c, func(t8 time.Duration, fail func(what, kase string)) {
+				e2eStall(c, 4+6*(li/2)+li%2, t8, li%2 == 0, fail)
+			})
+		}
 	default:
 		panic("unknown pass")
 	}
